@@ -60,6 +60,12 @@ fn seq_case(ctx: &mut Ctx, alg: Algorithm, old: &[u32], new: &[u32], os: usize, 
         variants.push(("algorithms::diff_slices_deadline", rec(|h| algorithms::diff_slices_deadline(alg, h, old, new, None))));
     }
     for (name, v) in &variants {
+        // the finish protocol of every entry point (C08): exactly one finish, and last
+        if let Some(t) = v {
+            if let Err(e) = crate::oracle::finish_once_last(t) {
+                ctx.violation("C08", &req, format!("{}: {}", name, e));
+            }
+        }
         if *v != base {
             ctx.violation(
                 "C01",
